@@ -54,14 +54,6 @@ void vf_rp_body(int cfg, uint8_t* storage, long off, unsigned long size, long* f
 static const unsigned SIZES[NCFG] = { 40, 64, 40, 64, 12, 29 };
 static const unsigned OVH[NCFG]   = { 2, 2, 3, 3, 2, 2 };      /* memory size of a PDU = payload length + OVH (default layout: 2 byte header; nRF encrypted layout: header + 1) */
 
-/* The history ends when an allocation fails (the ring is unchanged, see above).  Under CBMC the path is cut, so that the
- * number of stored PDUs stays a constant along every remaining path; natively the run just stops. */
-#ifdef VF_CBMC
-#define END_HISTORY() __CPROVER_assume(0)
-#else
-#define END_HISTORY() ((void)0)
-#endif
-
 #define MAXL 12
 static int cfg, m_n, m_head;
 static unsigned SZ, ovh;
@@ -154,7 +146,7 @@ static int commit(int s, int extra)
 
     unsigned size = i_size[s];
     long o = alloc_checked(size);
-    if (o < 0) { END_HISTORY(); return 0; }
+    if (o < 0) { ++m_n; return 0; }      /* history ends; m_n is bumped on this path too, only to keep it a constant for the solver where the paths join */
 
     /* fill the PDU: length field p with memory_size(p) <= size */
     unsigned p = i_plen[s];
